@@ -66,6 +66,13 @@ CLAIMED = {
         "note": 'Trusted: detsched shims; scripted emitters and recording handlers are harness-side subclasses of the public EventEmitter / FileSystemEventHandler. Bounded: <=2 application threads, <=3 handlers, 2 watches, <=3 events per emitter, preemption bound 1 (quick) / 2 (thorough). Clauses owned by a sibling property are left to its check.',
         "technique": "TLA+ model checking (TLC, safety + liveness) + trace validation of real executions under a deterministic scheduler",
     },
+    "C12": {
+        "engine": "fd",
+        "design_ref": "DESIGN.md §4.4, §5.3, §7 C12",
+        "text": "InotifyFd.tla (constructor with a failing kernel call at every position, reader loop, close() hand-over decided by is_reading under the lock, several closers) is checked exhaustively by TLC incl. liveness (reader exits after stop); the three repaired defects (D1 constructor leak, D2 initial is_reading, D13 add_watch after close) switched back on must violate their invariants. The real Inotify / InotifyBuffer / InotifyObserver run on a real scratch directory with the OS seam (descriptor shadow table, fault directives at the ctypes boundary) under the deterministic scheduler: one program per (kernel call position x errno x level), bounded-preemption DFS of close() against the read loop, random + PCT schedules on the deeper stacks; TLC validates every sys-call trace against the per-descriptor state machine of InotifyFdTrace.tla; plus real-thread, real-kernel schedule/start/stop cycles comparing /proc/self/fd and threading.enumerate().",
+        "note": "Trusted: the seam sees every descriptor the library obtains (inotify_init, os.pipe); injected errno values are what the kernel would return. Bounded: trees of 1-4 directories, <=2 closers, preemption bound 2 (quick) / 3 (thorough) at the Inotify level, sampled schedules above it.",
+        "technique": "TLA+ model checking (TLC, safety + liveness) + fault enumeration at the OS seam + trace validation of real executions",
+    },
 }
 
 NOT_YET = "check not built yet (in progress, see DESIGN.md §12)"
